@@ -204,7 +204,10 @@ theorem psV3Connack_all (hP : Lax P) (hc : P .close) (c : C) (p : Pkt) (hs : P (
     split
     · simp [h, hP.er]
     · simp only [ne_eq, not_true_eq_false, ite_false]
-      exact sendPostProcess_all hP _ (sendStored_all hP _ (by simp [h, hs]) (by simpa using hst))
+      refine sendPostProcess_all hP _ ?_
+      split
+      · exact sendStored_all hP _ (by simp [h, hs]) (by simpa using hst)
+      · simp [clearStoreRelated, h, hs]
   · simp [psV3Connack, hr, h, hs, hc, hP.er, cancelTimers_all hP]
 
 theorem connackSendProp_store (c : C) (id v) : (connackSendProp c id v).s.store = c.s.store := by
@@ -229,10 +232,13 @@ theorem psV5Connack_all (hP : Lax P) (hc : P .close) (c : C) (p : Pkt) (hs : siz
         · simp [h, hP.er]
         · simp only [ne_eq, not_true_eq_false, ite_false, ite_true]
           have hfr := propsFold_fr connackSendProp_fr c p.props
-          refine sendPostProcess_all hP _ (sendStored_all hP _ ?_ ?_)
-          · simp [hp, propsFold_all (connackSendProp_all hP) c p.props h]
-          · have hst' := propsFold_store connackSendProp_store c p.props
-            simpa [hfr.1, hfr.2, hst'] using hst
+          refine sendPostProcess_all hP _ ?_
+          split
+          · refine sendStored_all hP _ ?_ ?_
+            · simp [hp, propsFold_all (connackSendProp_all hP) c p.props h]
+            · have hst' := propsFold_store connackSendProp_store c p.props
+              simpa [hfr.1, hfr.2, hst'] using hst
+          · simp [clearStoreRelated, hp, propsFold_all (connackSendProp_all hP) c p.props h]
     · simp [psV5Connack, hr, hz, h, hp, hc, hP.er, cancelTimers_all hP]
   · simp [psV5Connack, hz, h, hP.er]
 
